@@ -164,7 +164,7 @@ def run(pid, tier):
                "steps_with_value_in_flight_for_an_approved_hash": trep["in_flight_steps"],
                "spec_divergences": trep["ndivergent"], "broken": trep["broken"], "violated": list(t1["violated"]),
                "payment_velocity_limit": vlim,
-               "approvals_declined": sum(1 for x in open(steps_file) if '"flag":0' in x.replace(" ", ""))}
+               "approval_requests_answered_false": sum(1 for x in open(steps_file) if '"flag":0' in x.replace(" ", ""))}
         csteps += trep["steps"]
         tot_states += t1["distinct"]
         tot_trans += t1["states"]
